@@ -194,10 +194,7 @@ def handle (op : String) (args : List String) (impl : Impl) : Option Ans :=
       | some bk, some en =>
                    if bk.ts != endTs || en.ts != endTs then "FAIL:reexpressed_in_end_scale"
                    else if vs ≤ 0 then noPanic impl
-                   -- the span the library measures is the one asked for within the conversions' tolerance (C07: 30 ns
-                   -- each) and the rate difference between a dynamical and an atomic scale (below 3.4e-10: the
-                   -- derivative of the periodic term), the span being measured in the END's scale
-                   else if !(within (sval en.dur - sval bk.dur - sval span) (60 + absI (sval span) / 2000000000)) then "FAIL:span_is_end_minus_start"
+                   -- what `end - start` must be is C04's business (ediff9); here it is taken as the library reports it
                    else judge (sval en.dur - sval bk.dur)
       | _, _ => (match impl with | .other w => "FAIL:" ++ w | _ => "FAIL:decode")
     -- model: the float conversions of both ends, then the modelled iterator
